@@ -6,7 +6,7 @@ func extraRules() []*Rule {
 	out = append(out, rulesLocks()...)
 	out = append(out, rulesTables()...)
 	out = append(out, rulesStorage()...)
-	out = append(out, ruleLifecycle(), ruleHeartbeat(), ruleRecordOffset())
+	out = append(out, ruleLifecycle(), ruleHeartbeat(), ruleRecordOffset(), ruleFollowerLookup())
 	return out
 }
 
@@ -38,7 +38,7 @@ func extraSpecs() []*PropertySpec {
 		{ID: "C11", Rules: []string{"COMPACT-KEEP"}, Decided: "Compact keeps the boundary entry as placeholder plus the suffix, DiscardEntries leaves exactly the placeholder, LastIndex/LastTerm/NextIndex read the last element"},
 		{ID: "C15", Rules: []string{"CHUNK-BOUND", "HEARTBEAT"}, Decided: "the bytes of one InstallSnapshot request are bounded by the chunk constant, itself below the 4 MiB gRPC limit (one known finding D15); heartbeats go to every member on every tick of a non-follower; the election timeout is re-randomised per iteration"},
 		{ID: "C19", Rules: []string{"CHUNK-BOUND", "RECORD-OFFSET"}, Decided: "snapshot payloads cross the transport in bounded chunks (one known finding D15)"},
-		{ID: "C18", Rules: []string{"LIFECYCLE"}, Decided: "exhaustive exploration of Start/Restart/Stop/Bootstrap sequences over the (running, log open, configured, lifecycle flags) automaton extracted from the code: a running node always has its log open and no lifecycle method uses a closed log"},
+		{ID: "C18", Rules: []string{"LIFECYCLE", "FOLLOWER-LOOKUP"}, Decided: "exhaustive exploration of Start/Restart/Stop/Bootstrap sequences over the (running, log open, configured, lifecycle flags) automaton extracted from the code: a running node always has its log open and no lifecycle method uses a closed log"},
 		{ID: "C01", Rules: []string{"APPLY-ORDER"},
 			Decided: "the apply loop fetches log[lastApplied+1] only while lastApplied < commitIndex, hands exactly that entry's index/term/data to the state machine and advances lastApplied by one"},
 		{ID: "C07", Rules: []string{"LEADER-APPEND"},
